@@ -130,6 +130,16 @@ pub fn typo(rng: &mut Rng, s: &str, edits: usize) -> String {
     cs.into_iter().collect()
 }
 
+/// `s` with blanks around it (" s", "s\n", "\ts ", "  s"): what a trimming comparison would wrongly accept / misquote
+pub fn padded(rng: &mut Rng, s: &str) -> String {
+    match rng.below(4) {
+        0 => format!(" {s}"),
+        1 => format!("{s}\n"),
+        2 => format!("\t{s} "),
+        _ => format!("  {s}"),
+    }
+}
+
 pub fn flip_case(s: &str) -> String {
     let mut done = false;
     let r: String = s
@@ -468,11 +478,14 @@ impl<'a> Gen<'a> {
             Ty::Map(k, t) => {
                 let n = if deep { 0 } else if self.opts.max_len > 100 { if depth <= 1 && !self.bulk_spent { self.bulk_spent = true; self.opts.max_len.min(200) } else { self.rng.below(3) } } else { self.rng.below(self.opts.max_len + 1) };
                 let mut m: Vec<(String, Ov)> = vec![];
+                let mut had_bad = false;
                 for _ in 0..n {
                     let taken: Vec<String> = m.iter().map(|x| x.0.clone()).collect();
-                    if self.fault() {
+                    // bad keys come in groups half of the time (several unparsable keys in ONE map)
+                    if self.fault() || (had_bad && self.rng.chance(1, 2)) {
                         if let Some(b) = self.bad_key(*k) {
                             if !taken.contains(&b) {
+                                had_bad = true;
                                 self.tag("unparsable-key");
                                 let v = self.payload(t, depth + 1);
                                 m.push((b, v));
@@ -592,7 +605,11 @@ impl<'a> Gen<'a> {
                         }
                         2 => {
                             self.tag("tag-near-miss");
-                            tagv = Ov::Str(if self.rng.chance(1, 2) { flip_case(&vd.key) } else { one_edit(&mut self.rng, &vd.key) });
+                            tagv = Ov::Str(match self.rng.below(3) {
+                                0 => flip_case(&vd.key),
+                                1 => one_edit(&mut self.rng, &vd.key),
+                                _ => padded(&mut self.rng, &vd.key),
+                            });
                         }
                         _ => {
                             self.tag("tag-ident-or-random");
@@ -615,10 +632,15 @@ impl<'a> Gen<'a> {
                 let (ident, key) = u.variants[self.rng.below(u.variants.len())].clone();
                 if self.fault() {
                     self.tag("unknown-enum-value");
-                    let s = match self.rng.below(4) {
+                    let s = match self.rng.below(6) {
                         0 => flip_case(&key),
                         1 => one_edit(&mut self.rng, &key),
                         2 => ident,
+                        3 => padded(&mut self.rng, &key),
+                        4 => {
+                            let w = self.word();
+                            padded(&mut self.rng, &w)
+                        }
                         _ => self.word(),
                     };
                     Ov::Str(s)
@@ -674,11 +696,12 @@ impl<'a> Gen<'a> {
                 self.word()
             } else {
                 let f = *self.rng.pick(&real);
-                match self.rng.below(5) {
+                match self.rng.below(6) {
                     0 => flip_case(&f.key),
                     1 => one_edit(&mut self.rng, &f.key),
                     2 => f.ident.clone(),
                     3 => format!("r#{}", f.ident), // the raw-identifier spelling of the field's name
+                    4 => padded(&mut self.rng, &f.key),
                     _ => f.key.to_lowercase(),
                 }
             };
